@@ -148,13 +148,19 @@ StringSlice Switches::GetStateLabel(an<ConfigMap> the_switch,
     auto abbrev = As<ConfigList>(the_switch->Get("abbrev"));
     if (abbrev && abbrev->size() > state_index) {
       auto value = abbrev->GetValueAt(state_index);
+      if (!value)
+        return {nullptr, 0};
       return {value->str().c_str(), value->str().length()};
     } else {
       auto value = states->GetValueAt(state_index);
+      if (!value)
+        return {nullptr, 0};
       return {value->str().c_str(), first_unicode_byte_length(value->str())};
     }
   } else {
     auto value = states->GetValueAt(state_index);
+    if (!value)
+      return {nullptr, 0};
     return {value->str().c_str(), value->str().length()};
   }
 }
